@@ -345,9 +345,14 @@ func runC12(c *Ctx) {
 				}
 			}
 			// evicts the probed peer
+			var pr eng.Object // the peer handed to the ping function
+			for _, ping := range g.Calls("field:dht/rtrefresh.RtRefreshManager.refreshPingFnc") {
+				if len(ping.Args) == 2 {
+					pr = rootObj(ginfo, ping.Args[1])
+				}
+			}
 			for _, call := range g.Calls(fnRemovePeer) {
-				pr := g.Info().Defs[g.Type.Params.List[0].Names[0]]
-				c.Check(K(g.Name, "evicts the probed peer"), call.Pos(), rootObj(ginfo, call.Args[0]) == pr, "the evicted peer is the one that was probed", "RemovePeer on another peer")
+				c.Check(K(g.Name, "evicts the probed peer"), call.Pos(), pr != nil && rootObj(ginfo, call.Args[0]) == pr, "the evicted peer is the one that was probed", "RemovePeer on another peer")
 			}
 		}
 		c.Check(K(f.Name, "error edges"), f.Pos(), n == 2, "connect and ping failures are both handled", "found "+itoa(n)+" error tests")
